@@ -374,13 +374,17 @@ fn is_useful_wildcard(
                     }
                     witness_report = wr;
                 }
-                (_, wr) => {
+                (WitnessReport::Witnesses(rest), wr) => {
+                    // The witness vector `pat rest'` found for this constructor can be
+                    // merged into the one we already have, `(pat_1 | ... | pat_j) rest`,
+                    // only if the witnesses for the remaining columns are the same.
                     let (pat, wr) =
                         WitnessReport::split_into_leading_constructor(handler, wr, c_k, span)?;
-                    if !pat_stack.contains(&pat) {
+                    if matches!(&wr, WitnessReport::Witnesses(new_rest) if new_rest == rest)
+                        && !pat_stack.contains(&pat)
+                    {
                         pat_stack.push(pat);
                     }
-                    witness_report = WitnessReport::join_witness_reports(witness_report, wr);
                 }
             }
         }
